@@ -340,6 +340,53 @@ func TestC05(t *testing.T) {
 		runDiff(rec, rt, "operator", c, false, nil, "op:"+op, "site-reuse")
 	})
 
+	// the right operand changes what the left operand names: each operand has the value
+	// it had when it was evaluated, left first (DESIGN.md 3, first paragraph)
+	check(rec, "operand-order", scale(3000, 1500000), func(rt *rapid.T) {
+		op := rapid.SampledFrom(c05BinOps).Draw(rt, "op")
+		oa := storable[rapid.IntRange(0, len(storable)-1).Draw(rt, "ga")]
+		ob := storable[rapid.IntRange(0, len(storable)-1).Draw(rt, "gb")]
+		var place *ast.Node
+		var init []*ast.Node
+		switch rapid.IntRange(0, 3).Draw(rt, "place") {
+		case 0:
+			place = ast.Id("x")
+			init = []*ast.Node{ast.ExprS(ast.Set(ast.Id("x"), oa.Lit()))}
+		case 1:
+			place = ast.Idx(ast.Id("arr"), ast.Num("1"))
+			init = []*ast.Node{ast.ExprS(ast.Set(ast.Id("arr"), ast.Arr(ast.Num("0"), oa.Lit(), ast.Num("2"))))}
+		case 2:
+			place = ast.Mem(ast.Id("ob"), "k")
+			init = []*ast.Node{ast.ExprS(ast.Set(ast.Id("ob"), ast.Obj(ast.KV("k", oa.Lit()))))}
+		default:
+			place = ast.Mem(ast.Idx(ast.Id("arr"), ast.Num("0")), "k")
+			init = []*ast.Node{ast.ExprS(ast.Set(ast.Id("arr"), ast.Arr(ast.Obj(ast.KV("k", oa.Lit())))))}
+		}
+		var right *ast.Node
+		form := rapid.SampledFrom([]string{"assign", "assign", "post++", "pre--", "compound", "call"}).Draw(rt, "rightform")
+		switch form {
+		case "assign":
+			right = ast.Set(place.Clone(), ob.Lit())
+		case "post++":
+			right = ast.Post("++", place.Clone())
+		case "pre--":
+			right = ast.Pre("--", place.Clone())
+		case "compound":
+			right = ast.Asg("+=", place.Clone(), ob.Lit())
+		default:
+			right = ast.Call(ast.Id("setit"), ob.Lit())
+			place = ast.Id("x")
+			init = []*ast.Node{ast.ExprS(ast.Set(ast.Id("x"), oa.Lit()))}
+		}
+		setit := ast.Func("setit", []string{"nv"}, ast.Block(ast.ExprS(ast.Set(ast.Id("x"), ast.Id("nv"))), ast.Return(ast.Id("nv"))))
+		fun := ast.Func("fun", nil, ast.Block(ast.Return(ast.Num("1"))))
+		stmts := append(init, ast.ExprS(ast.Set(ast.Id("r"), ast.Bin(op, place.Clone(), right))))
+		stmts = append(stmts, c05Observe()...)
+		stmts = append(stmts, ast.Print(ast.Str("place"), place.Clone()))
+		c := &DCase{Prog: ast.Prog(fun, setit, ast.Rule("BEGIN", nil, ast.Block(stmts...))), Tag: "operand order: " + oa.Name + " " + op + " (" + form + " " + ob.Name + ")"}
+		runDiff(rec, rt, "operator", c, false, nil, "op:"+op, "operand-order", "right:"+form)
+	})
+
 	// random operands
 	check(rec, "operator-random", scale(20000, 20000000), func(rt *rapid.T) {
 		kind := rapid.SampledFrom([]string{"bin", "bin", "bin", "bin", "un", "is"}).Draw(rt, "kind")
